@@ -37,7 +37,12 @@ def run_tlc(module_path: str, cfg_path: str | None = None, *, workers: int | str
     if own_scratch:
         scratch = tempfile.mkdtemp(prefix="tlc-", dir=os.environ.get("VERIF_SCRATCH"))
     meta = os.path.join(scratch, "meta-%d-%d" % (os.getpid(), time.time_ns() % 10**9))
-    cmd = ["java", "-XX:+UseParallelGC", f"-Xmx{heap}", f"-DTLA-Library={lib_path(*(libdirs or []))}"]
+    if str(workers) == "1":
+        # many short single-worker JVMs run side by side (trace batches): keep each one to one core
+        jvm = ["-XX:+UseSerialGC", "-XX:TieredStopAtLevel=1", "-XX:CICompilerCount=1"]
+    else:
+        jvm = ["-XX:+UseParallelGC"]
+    cmd = ["java", *jvm, f"-Xmx{heap}", f"-DTLA-Library={lib_path(*(libdirs or []))}"]
     cmd += java_props or []
     cmd += ["-cp", JARS, "tlc2.TLC", "-workers", str(workers), "-metadir", meta, "-noGenerateSpecTE"]
     if not deadlock:
